@@ -17,6 +17,15 @@ def linear_form(n):
         return linear_form(n["e"])
     if k == "mcall" and n["name"] == "max" and T.lit_value(n["args"][0]) == 0:
         return linear_form(n["recv"])      # usize.max(0) is the identity
+    if k == "mcall" and n["name"] == "len" and not n["args"]:
+        # the length of a slice `xs[a..b]` is b - a
+        r = T.peel_ref(n["recv"])
+        if r.get("k") == "index" and T.peel(r["idx"]).get("k") == "struct" and "ops::Range" in ((T.peel(r["idx"]).get("res") or {}).get("path") or ""):
+            f = {x["name"]: x["e"] for x in T.peel(r["idx"])["fields"]}
+            if set(f) == {"start", "end"} and "Inclusive" not in (T.peel(r["idx"])["res"].get("path") or ""):
+                a, b = linear_form(f["end"]), linear_form(f["start"])
+                if a is not None and b is not None:
+                    return combine(a, b, -1)
     return {T.render(n): 1}
 
 
